@@ -345,8 +345,9 @@ func (g *gstate) message(i int) string {
 		return g.joinMsg(i)
 	case 1:
 		m := "t=chat"
-		if k := r.Weighted(60, 20, 10, 10); k > 0 {
-			m += " k=" + []string{"", "me", "caption", "odd"}[k]
+		if k := r.Weighted(60, 20, 10, 10, 6, 3); k > 0 {
+			// (kinds are not validated: also the kinds of other message types)
+			m += " k=" + []string{"", "me", "caption", "odd", "join", "leave"}[k]
 		}
 		if r.Intn(5) == 0 {
 			m += " dst=" + g.anyId()
@@ -359,7 +360,7 @@ func (g *gstate) message(i int) string {
 		}
 		return m + " " + g.value() + g.ident(i)
 	case 2:
-		m := "t=usermessage k=" + common.Pick(r, "info", "error", "mute", "kicked", "clearchat", "token", "")
+		m := "t=usermessage k=" + common.Pick(r, "info", "error", "mute", "kicked", "clearchat", "token", "", "join", "change")
 		if r.Intn(3) > 0 {
 			m += " dst=" + g.anyId()
 		}
@@ -934,6 +935,18 @@ func (g *gstate) directed(k int) {
 		}
 		g.script("q", "m 1 t=groupaction k=unrecord", "m 0 t=groupaction k=unrecord", "q",
 			"m 0 t=useraction k=identify dst="+disk, "m 0 t=groupaction k=record", "q", "m 0 t=join k=leave g=g1", "q", "probe")
+	case 14: // a member's connection has just failed (its writer is gone, it is still a member): a broadcast reaches everybody else
+		g.script("group g1 u=alice:pw:op u=bob:pw:present u=carl:pw:message w=*:message", "client 0 c0", "client 1 c1", "client 2 c2", "client 3 c3",
+			"client 4 c4", "client 5 c5",
+			"m 0 t=join k=join g=g1 u=alice pw=pw", "m 1 t=join k=join g=g1 u=bob pw=pw", "m 2 t=join k=join g=g1 u=carl pw=pw",
+			"m 3 t=join k=join g=g1 u=will pw=x", "m 4 t=join k=join g=g1 u=zed pw=x", "m 5 t=join k=join g=g1 u=yan pw=x", "q")
+		dead := r.Intn(6)
+		g.do(fmt.Sprintf("killwriter %d", dead))
+		if r.Bool() {
+			g.do(fmt.Sprintf("killwriter %d", (dead+1+r.Intn(5))%6))
+		}
+		snd := (dead + 1 + r.Intn(5)) % 6
+		g.do(fmt.Sprintf("m %d t=%s v=s.hello%s", snd, common.Pick(r, "chat", "chat", "usermessage k=info"), common.Pick(r, "", " ne=1")))
 	case 13: // a permission held twice is revoked: both occurrences go
 		g.script("group g1 u=alice:pw:op w=*:message rec", "client 0 c0", "client 1 c1", "client 2 c2",
 			"m 0 t=join k=join g=g1 u=alice pw=pw", "q",
@@ -1005,7 +1018,7 @@ func gen(t *common.Trace, e common.Engine, r *common.Rng, thorough bool) {
 		t.Case(fmt.Sprint(n))
 		e.Reset()
 		if r.Intn(100) < 20 {
-			k := r.Intn(14)
+			k := r.Intn(15)
 			t.Count(fmt.Sprintf("directed:%d", k))
 			g.directed(k)
 		} else {
